@@ -10,6 +10,12 @@ def _rounding():
     return rounding.generate(os.path.join(REPO, 'src/quantity/__init__.py'))
 
 
+def _temptable():
+    from . import temptable
+    return temptable.generate(os.path.join(REPO, 'src/quantity/predefined.py'))
+
+
 GENERATORS = [
     ('RoundingImpl', _rounding),
+    ('TempTable', _temptable),
 ]
